@@ -445,7 +445,15 @@ namespace occa
           return false;
         }
 
-        variable_t &atomic_var = *(variable_node->getVariable());
+        // The updated expression might not be a known variable
+        variable_t *atomic_var_ptr = variable_node->getVariable();
+        if (!atomic_var_ptr)
+        {
+          atomicSmnt.printError("Unable to transform @atomic code");
+          return false;
+        }
+
+        variable_t &atomic_var = *atomic_var_ptr;
         vartype_t atomic_type = atomic_var.vartype;
 
         auto *atomic_ref = new dpcppAtomicNode(atomic_var.source, atomic_type, *variable_node);
